@@ -460,6 +460,57 @@ func main() {
 	})
 	out.Def("recoverAssertion", "String", xlib.LeanStr(rec))
 
+	// the grammar functions: for every method of *parser, the calls it makes on p / p.l in source order, with the
+	// constant arguments of the token-consuming primitives (rename-robust fingerprint of what Model/AspParse.lean
+	// transcribes)
+	var pc []string
+	for _, d := range gp.AST.Decls {
+		fd, ok := d.(*ast.FuncDecl)
+		if !ok || fd.Recv == nil || fd.Body == nil || len(fd.Recv.List) != 1 || len(fd.Recv.List[0].Names) != 1 {
+			continue
+		}
+		self := fd.Recv.List[0].Names[0].Name
+		var seq []string
+		ast.Inspect(fd.Body, func(n ast.Node) bool {
+			c, ok := n.(*ast.CallExpr)
+			if !ok {
+				return true
+			}
+			sel, ok := c.Fun.(*ast.SelectorExpr)
+			if !ok {
+				return true
+			}
+			recv := ""
+			switch x := sel.X.(type) {
+			case *ast.Ident:
+				recv = x.Name
+			case *ast.SelectorExpr:
+				if id, ok := x.X.(*ast.Ident); ok {
+					recv = id.Name + "." + x.Sel.Name
+				}
+			}
+			if recv != self && recv != self+".l" {
+				return true
+			}
+			nm := sel.Sel.Name
+			var args []string
+			for _, a := range c.Args {
+				if bl, ok := a.(*ast.BasicLit); ok && (bl.Kind == token.CHAR || bl.Kind == token.STRING) {
+					args = append(args, bl.Value)
+				} else if id, ok := a.(*ast.Ident); ok && (id.Name == "EOL" || id.Name == "Ident" || id.Name == "String" || id.Name == "Unindent" || id.Name == "Int" || id.Name == "EOF") {
+					args = append(args, id.Name)
+				}
+			}
+			if len(args) > 0 && nm != "fail" && nm != "assert" {
+				nm += "(" + strings.Join(args, ",") + ")"
+			}
+			seq = append(seq, nm)
+			return true
+		})
+		pc = append(pc, "("+xlib.LeanStr(fd.Name.Name)+", "+xlib.LeanStr(strings.Join(seq, " "))+")")
+	}
+	out.Def("parserCalls", "List (String × String)", "[\n  "+strings.Join(pc, ",\n  ")+"]")
+
 	// grammar tables
 	out.Def("keywords", "List String", xlib.LeanStrList(stringKeys(gp, gp.VarValue("keywords"))))
 	out.Def("operators", "List String", xlib.LeanStrList(stringKeys(gr, gr.VarValue("operators"))))
